@@ -22,7 +22,11 @@ SPEC = {
 }
 
 NAME_POOL = ['zq', 'zq total', 'zq total cost', 'wv', 'wv rate', 'mk', 'çay', 'günlük ücret', 'şeker fiyat', 'qux', 'qux plan', 'öğle', 'rent xx',
-             'may budget', 'budget xx march', 'kira ocak']
+             'may budget', 'budget xx march', 'kira ocak',
+             # words that end with an operator word of a language (times, sum, kere), a name with the alias word 'euro', and a name
+             # with a character that is an operator
+             'sometimes', 'checksum', 'tekere', 'overtimes xx']
+ALLOWED_LEXICON_WORDS = set()
 # names may contain a month word (a name is several *words*); every other word of the lexicon stays excluded
 MONTH_WORDS = set()
 for _l in lex.languages():
@@ -62,7 +66,7 @@ def screened_names():
         words |= lex.all_words(lang)
     out = []
     for n in NAME_POOL:
-        if all((w.lower() not in words or w.lower() in MONTH_WORDS) and len(w) >= 2 for w in n.split()):
+        if all((w.lower() not in words or w.lower() in MONTH_WORDS or w.lower() in ALLOWED_LEXICON_WORDS) and len(w) >= 2 for w in n.split()):
             out.append(n)
     return out
 
@@ -338,7 +342,9 @@ SUB_TEMPLATES = [
     '{len} to m', '{len} + {len2}', '{len} * {num}', '{len} / {len2}', '{mem} to mb', '{mem} + {mem2}',
     '{pct} of {num}', '{num} + {pct}', '{num} - {pct}', '{pct} on {num}', '{num} is {pct} of what', '{num} is what % of {num2}', '{pct}',
 ]
-SUB_NAMES = ['zq', 'wv', 'mk', 'qux', 'zq total', 'wv rate', 'günlük ücret', 'rent xx']
+# ('euro rate' contains an alias word, 'tax-rate' a character that is an operator: both are only used here, where no number literal
+# stands directly in front of a name)
+SUB_NAMES = ['zq', 'wv', 'mk', 'qux', 'zq total', 'wv rate', 'günlük ücret', 'rent xx', 'sometimes', 'checksum', 'euro rate', 'tax-rate']
 
 
 def substitution_case(rng):
